@@ -38,7 +38,8 @@ ALPHA = [
     ('exec-string by 3', lambda ts: [R('TRACE_STRING_EXEC', 0, tid=3, ts=ts, data=b'f' * 32)]),     # thread 3 never emits the DATA half
 ]
 MAPS = [[], [(1, 10, 'A')], [(1, 10, 'A'), (2, 20, 'B')], [(1, 2, 'A'), (2, 1, 'B'), (3, 3, 'C')],   # tids collide with pids
-        [(1, 0xffffffff, 'M'), (2, 0x80000000, 'N')]]   # pids with the top bit set
+        [(1, 0xffffffff, 'M'), (2, 0x80000000, 'N')],   # pids with the top bit set
+        [(1, 10, 'A'), (0, 0, ''), (3, 30, 'C'), (2, 20, 'B')]]   # a zeroed slot in the middle of the map
 _TC = None
 
 
@@ -276,6 +277,33 @@ def judge_colour_bodies():
     return bad
 
 
+def judge_line_independence():
+    """with the timestamp and process columns off, the line of a record is a function of that record alone: whatever was listed before
+    it (a thread with a 13- or 20-digit id, a long name, a long body) does not change it - in all three listings."""
+    big, huge = (1 << 40) + 3, (1 << 64) - 1
+    firsts = {'wide-tid': [R('BSC_getpid', 1, tid=big, ts=1), R('BSC_getpid', 2, (0, 5, 0, 0), tid=big, ts=2)],
+              'widest-tid': [R('BSC_getpid', 1, tid=huge, ts=1), R('BSC_getpid', 2, (0, 5, 0, 0), tid=huge, ts=2)],
+              'long-body': [R('TRACE_STRING_THREADNAME', 0, tid=2, ts=1, data=b'n' * 32)],
+              'sample': [R('PERF_Event', 1, (8, 1, 0, 0), big, 1), R('PERF_STK_UHdr', 0, (1, 1, 0, 0), big, 2), R('PERF_STK_UData', 0, (0x1234, 0, 0, 0), big, 3), R('PERF_Event', 2, (8, 0, 0, 0), big, 4)]}
+    seconds = {'getpid@1': [R('BSC_getpid', 1, tid=1, ts=10), R('BSC_getpid', 2, (0, 5, 0, 0), tid=1, ts=11)],
+               'wait@2': [R('MACH_WAIT', 0, (0x10, 0, 0, 0), tid=2, ts=10)],
+               'sample@3': [R('PERF_Event', 1, (8, 1, 0, 0), 3, 10), R('PERF_STK_UHdr', 0, (1, 1, 0, 0), 3, 11), R('PERF_STK_UData', 0, (0x1234, 0, 0, 0), 3, 12), R('PERF_Event', 2, (8, 0, 0, 0), 3, 13)]}
+    bad = []
+    for api in ('formatted_traces', 'formatted_kevents', 'formatted_callstacks'):
+        for cfg in ([False, True, True, True, False, True], [False, False, False, True, False, False]):
+            for sn, srecs in seconds.items():
+                try:
+                    alone = lines(B.v2(MAPS[2], 0, srecs), api, cfg, False)
+                    for fn, frecs in firsts.items():
+                        both = lines(B.v2(MAPS[2], 0, frecs + srecs), api, cfg, False)
+                        if alone and both[-len(alone):] != alone:
+                            bad.append(('line-depends-on-what-was-listed-before:' + api, {'first': fn, 'then': sn, 'alone': alone[-1:], 'after': both[-1:]}))
+                            break
+                except Exception as ex:
+                    return [('formatting-raised:' + type(ex).__name__, {'api': api, 'error': repr(ex)[:200]})]
+    return bad[:3]
+
+
 def judge_superseded_sampler():
     """a sampler window (PERF_Event START..END by thread 2) holds a thread-data record that declares tid 3 -> pid 99; before the
     window ends another record re-declares tid 3 (NEWTHREAD 3 -> 10, or terminate-pid by 3 itself): after the END the newest
@@ -430,6 +458,9 @@ class C14(Check):
             for sig, detail in judge_colour_bodies():
                 acc.violation(sig, {'kind': 'colour-bodies'}, detail)
             acc.case(nontrivial=True, transitions=16, state=h64('colour-bodies'))
+            for sig, detail in judge_line_independence():
+                acc.violation(sig, {'kind': 'independence'}, detail)
+            acc.case(nontrivial=True, transitions=72, state=h64('independence'))
             for sig, detail in judge_superseded_sampler():
                 acc.violation(sig, {'kind': 'superseded-sampler'}, detail)
             acc.case(nontrivial=True, transitions=9, state=h64('superseded-sampler'))
@@ -458,6 +489,8 @@ class C14(Check):
             bad, _ = judge_compose(callstack_dump(), 'formatted_callstacks')
         elif k == 'colour-bodies':
             return judge_colour_bodies()
+        elif k == 'independence':
+            return judge_line_independence()
         elif k == 'superseded-sampler':
             return judge_superseded_sampler()
         else:
